@@ -473,6 +473,8 @@ def run_lat(case):
     except Exception as ex:  # noqa
         return {'status': 'vacuous', 'outcome': 'lat:get-raises', 'ops': nops, 'detail': str(ex)[:160]}
     tol = LAT_TOL[solver] * (1.0 + abs(rep))
+    if solver == 'eco' and any(ch in 'IB' for ch in spec['vt']):
+        tol = 2e-3 * (1.0 + abs(rep))      # ECOS_BB stops at a 1e-3 relative gap (mi_rel_eps default)
     best = None
     bestx = None
     nfeas = 0
